@@ -174,6 +174,14 @@ def run(ctx):
     for t, msgs in zip(htasks, pmap(refine_history, htasks, chunksize=8)):
         for m in msgs:
             res.add_violation(dict(driver="refine_history", **t, message=m, sig={}))
+    # shipped painting listeners probe the objective too: their evaluations must stay inside the box as well
+    from mc import painters
+    ptasks = painters.tasks(th)
+    painter_probes = 0
+    for t, o in zip(ptasks, pmap(painters.case, ptasks, chunksize=2)):
+        painter_probes += o["probes"]
+        for m in o["c05"]:
+            res.add_violation(dict(driver="painter", **t, message=m, sig={}))
     out = pmap(case, tasks, chunksize=8)
     local_evals = 0
     boundary = 0
@@ -189,7 +197,8 @@ def run(ctx):
         rule="one pair of executions (refineSolution off / on) per (N, box, objective of the lattice, itersLimit); every "
              "Calculate argument logged; non-trivial = objectives whose unconstrained minimum lies on the boundary or "
              "outside the box",
-        exhaustive=True, configurations=len(tasks), refinement_histories=len(htasks), boxes=sorted({t["box"] for t in tasks}), local_phase_evaluations=local_evals,
+        exhaustive=True, configurations=len(tasks), refinement_histories=len(htasks), painter_runs=len(ptasks),
+        painter_probe_evaluations=painter_probes, boxes=sorted({t["box"] for t in tasks}), local_phase_evaluations=local_evals,
         states=len(tasks), transitions=2 * len(tasks), traces_validated_against_impl=2 * len(tasks),
         samples=tasks[:2] + tasks[-1:],
     )
@@ -198,6 +207,9 @@ def run(ctx):
 
 
 def replay(rec):
+    if rec.get("driver") == "painter":
+        from mc import painters
+        return painters.case(rec)["c05"]
     if rec.get("driver") == "refine_history":
         return refine_history(rec)
     return case(rec)[0]
